@@ -122,9 +122,12 @@ def make_case(rng, i):
                 tgt = rng.choice(sids)
                 steps.append({"op": "write", "kind": rng.choice(["model", "csv", "cs"]), "target": tgt,
                               "value_expr": value_expr(spec, tgt), "valid": True})
-            else:
+            elif r < 0.93:
                 steps.append({"op": "write", "kind": "csv", "target": None, "valid": False,
                               "value_expr": rng.choice(['"zz_unmapped"', "12345", "None", "('nope',)", "-99"])})
+            else:
+                # a State object that does not belong to this machine, through the current_state setter
+                steps.append({"op": "write", "kind": "cs_foreign", "target": None, "valid": False})
         steps.append(st)
     driver = rng.choice(["sync", "inloop"]) if spec["any_async"] else "sync"
     # some callbacks write another valid value to the model field while their transition is in flight
